@@ -816,6 +816,26 @@ func checkBlockMapMutation(c *Ctx, rule string) {
 							}
 						}
 					}
+					// a derived value returned by an inlined helper makes the call's result derived (bm.locked(n))
+					if ret, ok := in.(*ssa.Return); ok {
+						if site, isCall := reg.site[ret.Parent()].(*ssa.Call); isCall {
+							for i, rv := range returnValues(ret) {
+								if !derived[rv] {
+									continue
+								}
+								var res ssa.Value = site
+								if tup, isTup := site.Type().(*types.Tuple); isTup && tup.Len() > 1 {
+									res = extractOf(site, i)
+								}
+								if res != nil && !derived[res] {
+									derived[res], changed = true, true
+									if alias[rv] {
+										alias[res] = true
+									}
+								}
+							}
+						}
+					}
 					v, ok := in.(ssa.Value)
 					if !ok || derived[v] {
 						return
